@@ -355,9 +355,16 @@ func c03RunOpt3(env world.Env, files []c03File, extraGauge bool, reg3 bool, rais
 		return true, ""
 	}
 	anyWeight := creditedBytes.IsPositive()
+	fit := "" // which denominators explain this block's payouts: L (listed bytes), C (credited bytes) - read by c03UniformEnum
 	if anyWeight {
 		ok1, why1 := okWith(listedBytes)
 		ok2, why2 := okWith(creditedBytes)
+		if ok1 {
+			fit += "L"
+		}
+		if ok2 {
+			fit += "C"
+		}
 		if !ok1 && !ok2 {
 			vs = append(vs, viol("size-weighted-share-once", "payout-mismatch", "lists %s: with D=listed bytes: %s; with D=credited bytes: %s; released %s ujkl %s uatom", pat, why1, why2, released["ujkl"], released["uatom"]))
 		}
@@ -376,7 +383,7 @@ func c03RunOpt3(env world.Env, files []c03File, extraGauge bool, reg3 bool, rais
 		}
 	}
 	cr.Nontrivial = len(failed) > 0
-	cr.Class = fmt.Sprintf("files=%d failing=%v released=%v", len(files), len(failed) > 0, released["ujkl"].IsPositive())
+	cr.Class = fmt.Sprintf("files=%d failing=%v released=%v fit=%s", len(files), len(failed) > 0, released["ujkl"].IsPositive(), fit)
 	cr.Viols = vs
 	return cr
 }
@@ -492,16 +499,65 @@ func c03Enum(thorough bool) mc.Enum {
 	return e
 }
 
+// c03UniformEnum (round 12): the statement leaves open whether a share is taken over all listed bytes or over all
+// credited bytes, and the per-block oracle accepts either. It does not leave open that the chain uses ONE rule: a
+// prover's "size-weighted share" cannot mean one thing in a block with a single counted prover and another in a block
+// with two. This single case builds every one-file reward block over {P1,P2,P3} (every ordered list of length >= 2,
+// every non-empty proper failing subset, sizes 7 and 1000), each on a fresh branch of the genesis state, notes which
+// denominators explain the payouts of that block, and demands that at least one denominator explains all of them.
+func c03UniformEnum() mc.Enum {
+	e := mc.Enum{Prop: "C03", Name: "C03/denominator-uniformity", Cfg: c03Config(true)}
+	e.Cases = append(e.Cases, mc.Case{Desc: "uniform-denominator", Run: func(env world.Env) mc.CaseResult {
+		cr := mc.CaseResult{Class: "uniform"}
+		fits := map[string]string{} // fit -> first configuration showing it
+		n := 0
+		for _, l := range orderedSubsets(c03Provers) {
+			if len(l) < 2 {
+				continue
+			}
+			for _, fail := range subsetsOf(l) {
+				if len(fail) == 0 || len(fail) == len(l) {
+					continue
+				}
+				for _, size := range []int64{7, 1000} {
+					f := mkFile(seqBytes(int(size), byte(size)), 4)
+					r := c03Run(env.W().NewEnvA(), []c03File{{f: f, size: size, list: l, fail: fail}}, false, true)
+					n++
+					i := strings.LastIndex(r.Class, "fit=")
+					if i < 0 {
+						continue
+					}
+					ft := r.Class[i+4:]
+					if _, ok := fits[ft]; !ok {
+						fits[ft] = fmt.Sprintf("%s size=%d", failDesc(l, fail), size)
+					}
+				}
+			}
+		}
+		cr.Count, cr.NontrivialCount, cr.Nontrivial = n, n, true
+		_, onlyL := fits["L"]
+		_, onlyC := fits["C"]
+		if onlyL && onlyC {
+			cr.Viols = append(cr.Viols, viol("one-denominator-rule-for-all-reward-blocks", "mixed", "%s", fmt.Sprintf("the payouts of block [%s] are explained only by shares of the listed bytes, those of block [%s] only by shares of the credited bytes: no single size-weighted rule explains both", fits["L"], fits["C"])))
+		}
+		cr.Class = fmt.Sprintf("uniform fits=%d", len(fits))
+		return cr
+	}})
+	return e
+}
+
 func init() {
+	CaseReplayers["C03/denominator-uniformity"] = func(r *mc.Run, c string) { r.ReplayCase(c03UniformEnum(), c) }
 	CaseReplayers["C03/reward-block"] = func(r *mc.Run, c string) { r.ReplayCase(c03Enum(true), c) }
 	Props["C03"] = Prop{Level: "model_checking", Run: func(r *mc.Run, tier string) {
-		r.Rules = append(r.Rules, "bounded-exhaustive construction of the state at a reward block through real messages and blocks: every ordering of every non-empty subset of {P1,P2,P3} as prover list x every subset missing the last window x sizes {1,7,1000} x {2,3} gauges (one with two denominations) x young-file variant; one provider lapsing on 130 / 260 files in one reward block; the same with 11-day blocks, so that every payment gauge has run out and been swept before the reward block under test; two files x all list/fail combinations over 2 (thorough: 3) provers; thorough adds an unregistered prover. Non-trivial = at least one prover missed the window")
-		r.Assumptions = append(r.Assumptions, "the denominator of a share may be all listed bytes or all credited bytes (both size-weighted); one denominator for all provers is demanded", "ProofWindow 3, CheckWindow 2, 1-day blocks")
+		r.Rules = append(r.Rules, "bounded-exhaustive construction of the state at a reward block through real messages and blocks: every ordering of every non-empty subset of {P1,P2,P3} as prover list x every subset missing the last window x sizes {1,7,1000} x {2,3} gauges (one with two denominations) x young-file variant; one provider lapsing on 130 / 260 files in one reward block; the same with 11-day blocks, so that every payment gauge has run out and been swept before the reward block under test; two files x all list/fail combinations over 2 (thorough: 3) provers; thorough adds an unregistered prover; one cross-block case demanding that a single denominator rule (listed bytes or credited bytes) explains the payouts of all 108 one-file reward blocks with a non-empty proper failing subset. Non-trivial = at least one prover missed the window")
+		r.Assumptions = append(r.Assumptions, "the denominator of a share may be all listed bytes or all credited bytes (both size-weighted); one denominator for all provers of a block, and one rule for all blocks, is demanded", "ProofWindow 3, CheckWindow 2, 1-day blocks")
 		dl := time.Now().Add(50 * time.Second)
 		if tier == "thorough" {
 			dl = time.Now().Add(25 * time.Minute)
 		}
 		r.AddEnum(c03Enum(tier == "thorough"), workers(), dl)
+		r.AddEnum(c03UniformEnum(), 1, time.Time{})
 	}}
 	_ = time.Second
 }
